@@ -107,8 +107,24 @@ def fullSpan (src : Source) : Res Span := do
 def nextPosition (src : Source) (p : Pos) : Res (Option Pos) :=
   withByteOffset p src.offset.byte (Tephra.nextPosition src.metrics src.text)
 
-def previousPosition (src : Source) (p : Pos) : Res (Option Pos) :=
-  withByteOffset p src.offset.byte (Tephra.previousPosition src.metrics src.text)
+/-- `SourceText::previous_position` (repaired: a result on the first line of a text
+whose start position has a non-zero column is re-measured from that start). -/
+def previousPosition (src : Source) (p : Pos) : Res (Option Pos) := do
+  let r ← withByteOffset p src.offset.byte (Tephra.previousPosition src.metrics src.text)
+  match r with
+  | none => .ok none
+  | some prev =>
+    if prev.line = src.offset.line ∧ src.offset.col ≠ 0 then
+      match csub prev.byte src.offset.byte with
+      | .panic => .panic
+      | .ok n =>
+        match splitAtByte src.text n with
+        | none => .panic
+        | some (pre, _) =>
+          match Tephra.endPosition src.metrics pre ⟨0, src.offset.line, src.offset.col⟩ with
+          | .panic => .panic
+          | .ok e => .ok (some { e with byte := e.byte + src.offset.byte })
+    else .ok (some prev)
 
 def lineEndPosition (src : Source) (p : Pos) : Res Pos :=
   withByteOffset1 p src.offset.byte (Tephra.lineEndPosition src.metrics src.text)
@@ -119,8 +135,11 @@ def lineStartPosition (src : Source) (p : Pos) : Res Pos := do
   let r ← withByteOffset1 p src.offset.byte (Tephra.lineStartPosition src.metrics src.text)
   .ok (if r.byte = src.offset.byte then src.offset else r)
 
-def previousLineEndPosition (src : Source) (p : Pos) : Res (Option Pos) :=
-  withByteOffset p src.offset.byte (Tephra.previousLineEndPosition src.metrics src.text)
+/-- `SourceText::previous_line_end_position` (repaired: through the text's own
+`line_start_position` and `previous_position`). -/
+def previousLineEndPosition (src : Source) (p : Pos) : Res (Option Pos) := do
+  let ls ← src.lineStartPosition p
+  src.previousPosition ls
 
 def nextLineStartPosition (src : Source) (p : Pos) : Res (Option Pos) :=
   withByteOffset p src.offset.byte (Tephra.nextLineStartPosition src.metrics src.text)
